@@ -99,6 +99,8 @@ def run(ck, fx, cg, tier):
     _recursion(ck, fx, cg, reach)
     # ------------------------------------------------------------ atomic print
     _atomic_print(ck, fx, cg)
+    # ------------------------------------------------------------ program output is written through
+    _output_through(ck, fx, cg)
     # ------------------------------------------------------------ fault detection (VM templates)
     from . import c05_vm
     c05_vm.fault_rules(ck, fx, cg, "R10.faults")
@@ -211,8 +213,9 @@ def _atomic_print(ck, fx, cg):
         return
     ck.fn(hb["path"])
     out_param = None
-    for p in hb["params"]:
-        if p.get("k") == "Binding" and p["name"] == "output":
+    ptys = [fx.tyname(t) or "" for t in hb.get("param_tys", [])]
+    for i, p in enumerate(hb["params"]):
+        if p.get("k") == "Binding" and (p["name"] == "output" or (i < len(ptys) and ptys[i] == "&mut W")):
             out_param = p["lid"]
     if out_param is None:
         # third parameter is the output sink by position
@@ -276,3 +279,47 @@ def _desc(n):
     if n.get("k") == "Call":
         return (callee_name(n) or "call").rsplit("::", 1)[-1] + "()"
     return n.get("k", "?")
+
+
+def _output_through(ck, fx, cg):
+    """R10.through: the VM's stdout sink hands every piece of program output to stdout before it returns Ok —
+    text held back in a buffer is lost when a later statement fails (the fault path never flushes), so
+    'stdout holds exactly the output produced before the fault' would not hold."""
+    from ..symex import Executor, Client, State
+    from ..symdbg import fmt_term
+    path = A.get("output.write_str")
+    b = fx.body(path)
+    if not ck.anchor("R10.through", path, b):
+        return
+    ck.fn(path)
+    try:
+        ex = Executor(fx, Client())
+        res = ex.run_body(b, [("var", "self"), ("var", "s")], State())
+    except Exception as e:  # noqa
+        ck.ob("R10.through", "Output::write_str", False, loc(b), "cannot analyse the output sink (unprovable): %s" % e)
+        return
+    oks = [(s_, o) for s_, o in res if o[0] == "val" and isinstance(o[1], tuple) and o[1][0] == "ok"]
+    bad = []
+    for s_, o in oks:
+        writes = [e for e in s_.eff if e["k"] == "call" and (e["args"][0][1] == "std::io::Write::write_all" or e["args"][0][1].endswith("std::io::Write>::write_all"))
+                  and len(e["args"]) > 2 and "stdout" in fmt_term(e["args"][1]).lower()]
+        full = [w for w in writes if ("var", "s") in _subterms(w["args"][2])]
+        if not full:
+            bad.append(s_)
+    ck.ob("R10.through", "Output::write_str writes its whole argument to stdout on every Ok path", bool(oks) and not bad, loc(b),
+          "%d successful path(s); paths that return Ok without a complete write of the text to stdout: %d%s" % (
+              len(oks), len(bad), "" if not bad else " — buffered program output is lost when execution later stops at a fault"))
+    # the sink carries no pending state
+    a = fx.adts.get("bytecode::state::Output")
+    if ck.anchor("R10.through", "type Output", a):
+        fields = [f["name"] for v in a["variants"] for f in v["fields"]]
+        ck.ob("R10.through", "Output holds no pending text", not fields, loc(a), "fields of the stdout sink: %s" % (fields or "none"))
+
+
+def _subterms(t):
+    out = {t}
+    if isinstance(t, tuple):
+        for x in t:
+            if isinstance(x, tuple):
+                out |= _subterms(x)
+    return out
